@@ -31,15 +31,16 @@ import (
 // ---- recording fake SDK (harness side: real mutex, invisible to the scheduler, visible to the race detector)
 
 type c16SDK struct {
-	mu        sync.Mutex
-	created   map[string]int   // instrument name -> creations
-	values    map[string][]int // instrument name -> recorded values
-	regs      int              // RegisterCallback calls
-	unregs    int
-	live      map[int]metric.Callback
-	liveInsts map[int][]metric.Observable
-	spans     []string // tracer/name of started spans
-	tracers   int
+	mu           sync.Mutex
+	created      map[string]int   // instrument name -> creations
+	values       map[string][]int // instrument name -> recorded values
+	foreignInsts int              // observables handed to RegisterCallback that are nil or not this SDK's
+	regs         int              // RegisterCallback calls
+	unregs       int
+	live         map[int]metric.Callback
+	liveInsts    map[int][]metric.Observable
+	spans        []string // tracer/name of started spans
+	tracers      int
 }
 
 func newC16SDK() *c16SDK {
@@ -316,6 +317,14 @@ func (m c16Meter) RegisterCallback(f metric.Callback, insts ...metric.Observable
 	id := m.s.regs
 	m.s.live[id] = f
 	m.s.liveInsts[id] = insts
+	// a real SDK refuses observables that are not its own ("invalid observable: from different
+	// implementation") and the callback is lost: what the global API hands over must be this SDK's
+	// instruments, already unwrapped
+	for _, in := range insts {
+		if in == nil || !strings.Contains(fmt.Sprintf("%T", in), "c16") {
+			m.s.foreignInsts++
+		}
+	}
 	return c16Reg{s: m.s, id: id}, nil
 }
 
@@ -719,6 +728,9 @@ func c16Body(sc c16Scn, res *string) func(x *sched.Exec) {
 						wantLive++
 					}
 				}
+			}
+			if sdk.foreignInsts > 0 {
+				x.Fail("C16|callback-registered-with-instruments-the-SDK-does-not-know", "RegisterCallback of the SDK received %d observable(s) that are nil or still the global API's placeholders: a real SDK refuses such a registration and the callback is lost", sdk.foreignInsts)
 			}
 			if len(sdk.live) != wantLive {
 				x.Fail("C16|callback-registration-count", "%d callback(s) registered through the global API and not unregistered, the SDK holds %d live registration(s) (RegisterCallback %d, Unregister %d)", wantLive, len(sdk.live), sdk.regs, sdk.unregs)
